@@ -29,7 +29,8 @@ ASSUMPTIONS = ["which thread wins a race and the exact count under a backwards c
                "the hit timestamp is the first clock read of the trigger (one per trace event)"]
 TEXT = ("Seeded exploration of hit histories on a virtual clock against a reference limiter (equality sequentially, "
         "safety concurrently) with controlled thread interleavings down to single lines of agent code.")
-NOTE = "Trusts the kernel clock seam and RefLimiter (20 lines); races below line granularity are out of reach."
+NOTE = ("Trusts the kernel clock seam and RefLimiter (30 lines); races below line granularity are out of reach; a hit "
+        "stamped before an already recorded collection and a period away from all of them is not decided either way.")
 TECHNIQUE = "deterministic simulation: virtual clock + seeded line-level schedules vs reference limiter"
 
 COUNTS = ("-1", "0", "1", "1", "2", "5", "", "abc", " 3 ", "1.5", None)
@@ -78,6 +79,9 @@ def generate(seed, tier):
             else:
                 gaps.append(["rel", r.choice((1, 999_999, 10**6, 10**7, 5 * 10**8, 10**9, 2 * 10**9))])
         s["gaps"] = gaps
+        # the collection itself fails part-way on every hit (malformed log template, after frames and watches were
+        # collected): it is still a collection and counts against the limits
+        s["failing"] = kind in ("snapshot", "log") and r.random() < 0.2
         s["via"] = r.choice(("service", "direct"))
         s["window"] = r.choice((None, None, None, "start", "end", "both"))
         if s["window"]:
@@ -102,6 +106,8 @@ def shrink_candidates(s):
         for cand in common.drop_one(s["gaps"]):
             if len(cand) >= 1:
                 yield dict(s, gaps=cand)
+        if s.get("failing"):
+            yield dict(s, failing=False)
         for i, g in enumerate(s["gaps"]):
             if g != ["rel", 10**9]:
                 gs = list(s["gaps"])
@@ -123,7 +129,13 @@ def _args(s):
     if s["fire_period"] is not None:
         args["fire_period"] = s["fire_period"]
     watches, metrics = [], []
-    if s["kind"] == "log":
+    if s.get("failing"):
+        args["log_msg"] = "hit {i} x={x"
+        if s["kind"] == "log":
+            args["snapshot"] = "no_collect"
+        else:
+            watches = ["i + 1"]
+    elif s["kind"] == "log":
         args["log_msg"] = "hit {i}"
         args["snapshot"] = "no_collect"
     elif s["kind"] == "metric":
@@ -231,18 +243,50 @@ def _execute_seq(s, ch):
                 seq, ts = pend
                 effs = [e for e in rec.effects.get(seq, []) if e[0] == s["kind"]]
                 got = len(effs)
+                started = state.pop("started", 0)
+                if s.get("failing"):
+                    if got:
+                        viol.append(V("harness-failing-collection-produced-output", str(effs[:1])))
+                    got = started
+                elif started and not got:
+                    # an action run without its output: forbidden work if the limits forbid it, but not an admitted hit
+                    state["work_only"] = True
                 if got:
                     state["last_collect"] = ts
-                    if s["kind"] == "snapshot" and effs[0][2].ts_nanos != ts:
+                    if s["kind"] == "snapshot" and effs and effs[0][2].ts_nanos != ts:
                         viol.append(V("harness-ts-mismatch", "snapshot ts %d, steered %d" % (effs[0][2].ts_nanos, ts)))
-                collected.append((ts, got))
+                collected.append((ts, got, state.pop("work_only", False)))
         shims.TRACE_SEAM.post = post
-        t.start()
-        t.join()
+        # a collection that was started is a collection, whether or not it got as far as producing its output: count
+        # the action runs themselves (observer at the ActionContext.process seam, restored below)
+        from deep.processor.context import action_context as ac_mod
+        orig_process = ac_mod.ActionContext.process
+
+        def process(self_):
+            if k.me().name == me_name:
+                state["started"] = state.get("started", 0) + 1
+            return orig_process(self_)
+        ac_mod.ActionContext.process = process
+        try:
+            t.start()
+            t.join()
+        finally:
+            ac_mod.ActionContext.process = orig_process
         common.wait_delivery(k, w, 60)
         # ------------------------------------------------------------- oracle: equality with the reference limiter
         pattern = []
-        for hi, (ts, got) in enumerate(collected):
+        for hi, (ts, got, work_only) in enumerate(collected):
+            if work_only and lim.allows(ts) is False:
+                viol.append(V("collected-but-limiter-forbids", "hit %d at ts %d: the action ran (without output) although "
+                              "the limits forbid it; count=%r period=%r" % (hi, ts, s["fire_count"], s["fire_period"])))
+                break
+            if lim.allows(ts) is None:
+                # stamped before a recorded collection and a period away from all of them: not decided (see RefLimiter)
+                k.probe("undecided_hits")
+                if got:
+                    lim.record(ts)
+                pattern.append((None, got))
+                continue
             exp = lim.hit(ts)
             pattern.append((exp, got))
             if got > 1:
@@ -251,7 +295,7 @@ def _execute_seq(s, ch):
                 viol.append(V("collected-but-limiter-forbids" if got else "allowed-hit-not-collected",
                               "hit %d at ts %d: reference %s, agent %s; settings count=%r period=%r window=%s kind=%s; "
                               "history %s" % (hi, ts, exp, bool(got), s["fire_count"], s["fire_period"], win, s["kind"],
-                                              [(t_ - collected[0][0], g_) for t_, g_ in collected])))
+                                              [(t_ - collected[0][0], g_) for t_, g_, _w in collected])))
                 break
         if len(collected) != len(s["gaps"]):
             viol.append(V("harness-hit-count", "%d of %d hits observed" % (len(collected), len(s["gaps"]))))
@@ -269,7 +313,7 @@ def _execute_seq(s, ch):
     pat = info.get("pattern", [])
     key = None
     if any(g for _, g in pat) and any(not g for _, g in pat):
-        key = repr((s["fire_count"], s["fire_period"], s["kind"], s.get("window"), s["gaps"], pat))
+        key = repr((s["fire_count"], s["fire_period"], s["kind"], s.get("window"), s.get("failing"), s["gaps"], pat))
     return common.result(k, viol, key=key)
 
 
@@ -301,8 +345,17 @@ def _execute_race(s, ch):
         act = trig.actions[0]
         orig_can = act.can_trigger
 
+        lim0 = RefLimiter(s["fire_count"] if s["fire_count"] is not None else 1,
+                          s["fire_period"] if s["fire_period"] is not None else 1000)
+        decisions = []
+
         def can_trigger(ts):
+            # the reference limiter is asked with the state the agent has recorded so far (it is advanced in
+            # record_triggered below), so its answer does not depend on how the threads interleave
+            want = lim0.allows(ts)
             r_ = orig_can(ts)
+            if want is not None and bool(r_) != want:
+                decisions.append((ts, bool(r_), want, lim0.count, lim0.last))
             if r_:
                 inside["n"] += 1
                 inside["max"] = max(inside["max"], inside["n"])
@@ -314,6 +367,7 @@ def _execute_race(s, ch):
 
         def record_triggered(ts):
             inside["n"] -= 1
+            lim0.record(ts)
             return orig_rec(ts)
         act.can_trigger = can_trigger
         act.record_triggered = record_triggered
@@ -358,6 +412,12 @@ def _execute_race(s, ch):
                 viol.append(V("collections-closer-than-fire-period", "%d ns apart with fire_period=%r (mode %s)" % (
                     b - a, s["fire_period"], mode)))
                 break
+        for ts_, got_, want_, cnt_, last_ in decisions[:1]:
+            viol.append(V("collected-but-limiter-forbids" if got_ else "allowed-hit-not-collected",
+                          "hit stamped %d: agent %s, limits %s (fire_count=%r fire_period=%r; %d recorded so far, last "
+                          "stamped %r, distance %s ns; mode %s, %d threads)" % (
+                              ts_, "collects" if got_ else "refuses", "allow" if want_ else "forbid", s["fire_count"],
+                              s["fire_period"], cnt_, last_, None if last_ is None else abs(ts_ - last_), mode, s["threads"])))
         if n == 0 and total_hits > 0 and lim.fc != 0:
             viol.append(V("no-collection-although-allowed", "%d hits, none collected" % total_hits))
         if rec is not None and rec.raised:
